@@ -149,6 +149,34 @@ XY_FAULTS = {
     "xy:phase-shift-bad-basis": ("phase_shift", 1.0, ("q0",), "digital"),
 }
 
+# a sequence on which nothing has been declared yet (mode still undetermined)
+FRESH_CORE = [
+    ("declare", "g", "rydberg_global"),
+    ("declare", "m", "mw_global"),
+    ("declare", "l", "raman_local", "q0"),
+    ("slm", ["q0"]),
+    ("magfield", 0.0, 1.0, 1.0),
+    ("config_dmm", "m2", "dmm_0"),
+    ("declare_var", "x"),
+]
+FRESH_FAULTS = {
+    "fresh:magfield-zero": ("magfield", 0.0, 0.0, 0.0),
+    "fresh:magfield-non-numeric": ("raw", "set_magnetic_field", ["a", 0.0, 1.0]),
+    "declare:unknown-id": ("declare", "n1", "nochannel"),
+    "declare:reserved-name": ("declare", "dmm_x", "raman_global"),
+    "declare:bad-local-initial-target": ("declare", "n5", "rydberg_local", "zz"),
+    "fresh:declare-mw-bad-target": ("declare", "n6", "mw_global", "zz"),
+    "slm:unknown-qubit": ("slm", ["q0", "zz"]),
+    "slm:unknown-dmm": ("slm", ["q0"], "dmm_9"),
+    "fresh:slm-not-a-collection": ("raw", "config_slm_mask", [5]),
+    "dmm:unknown-id": ("config_dmm", "m1", "dmm_9"),
+    "fresh:measure-without-channel": ("measure", "ground-rydberg"),
+    "fresh:add-unknown-channel": ("add", A.C52, "g9"),
+    "var:protected-name": ("declare_var", "qubits"),
+    "fresh:var-bad-size": ("raw", "declare_variable", ["y"], {"size": 0}),
+    "fresh:var-bad-dtype": ("raw", "declare_variable", ["y"], {"dtype": str}),
+}
+
 LABEL = {}
 
 
@@ -251,7 +279,8 @@ def reproducible(ctx):
                 else:
                     other = Sequence.from_abstract_repr(seq.to_abstract_repr())
             except Exception as e:
-                out.append((f"C09:copy-raises:{how}:{type(e).__name__}", f"{how}: {e!r}"[:200]))
+                ctxt = label(ctx.op) + (":after-measure" if ctx.pre.flags.get("meas") else "")
+                out.append((f"C09:copy-raises:{how}:{type(e).__name__}:{ctxt}", f"{how}: {e!r}"[:200]))
                 continue
             ctx.act["copies_compared:" + how] += 1
             s2 = snapshot.snap(other)
@@ -329,6 +358,7 @@ def plan(tier, seed):
         (corner("unit8", prefix=[("declare", "m", "mw_global")], qubits=3, name="xy", max_amp=20.0, qid_alias={"q0": "z", "q1": "a", "q2": "m"}),
          _alphabet(XY_CORE, XY_FAULTS, RO), 3),
     ]
+    plans.append((corner("unit8", prefix=[], qubits=3, name="fresh", max_amp=20.0), _alphabet(FRESH_CORE, FRESH_FAULTS, RO), 2))
     if tier == "thorough":
         plans = [(w, a, d + 1) for w, a, d in plans]
     return plans
@@ -342,8 +372,8 @@ def run(tier, seed):
     cov["evaluations"] = cov["transitions"]
     cov["distinct_nontrivial"] = res.activations.get("refused_calls", 0) + res.activations.get("read_only_calls", 0)
     cov["fault_causes_exercised"] = len(faults)
-    cov["fault_causes_in_menu"] = len(FAULTS) + len(XY_FAULTS)
-    cov["never_refused"] = sorted(set(list(FAULTS) + list(XY_FAULTS)) - {f[len("refusal:"):] for f in faults})
+    cov["fault_causes_in_menu"] = len(FAULTS) + len(XY_FAULTS) + len(FRESH_FAULTS)
+    cov["never_refused"] = sorted(set(list(FAULTS) + list(XY_FAULTS) + list(FRESH_FAULTS)) - {f[len("refusal:"):] for f in faults})
     cov["rule"] = ("every reachable state (BFS over the valid core ops, de-duplicated on the timeline snapshot) x every entry of the "
                    "invalid-call menu and the read-only menu; non-trivial = transitions in which a call was refused or a read-only "
                    "operation ran (full snapshot incl. call log compared before/after)")
@@ -356,7 +386,7 @@ def run(tier, seed):
 
 
 def replay(payload):
-    for a, b, c in [(CORE, FAULTS, RO), (XY_CORE, XY_FAULTS, RO)]:
+    for a, b, c in [(CORE, FAULTS, RO), (XY_CORE, XY_FAULTS, RO), (FRESH_CORE, FRESH_FAULTS, RO)]:
         _alphabet(a, b, c)
     ABSTRACT_DEPTH["n"] = 99
     return seqx.replay(payload, MONITORS, with_calls=True)
